@@ -149,7 +149,7 @@ def main():
     gen_ok = g.returncode == 0
     if not gen_ok:
         problems.append('translator (T-gen) failed closed: ' + (g.stderr or g.stdout)[-600:])
-    ok_build, build_log = lean_build()
+    ok_build, build_log = lean_build(PROPS)
     audit = {'obligations': 0, 'discharged': 0, 'theorems': [], 'checker_cmd': f'cd {LEAN} && lake build'}
     if ok_build:
         cmds = []
